@@ -77,7 +77,8 @@ def observable(d):
     o = {k: d.get(k) for k in ("infinite", "index", "variables", "valid", "bound")}
     rel = d.get("apply")
     if rel is not None and d["index"] <= 6 and not d["infinite"]:
-        o["matrices"] = [rel.apply_choice(*c).matrix for c in itertools.product((0, 1, 2), repeat=d["index"])]
+        o["matrices"] = [rel.apply_choice(*c).matrix if (d["valid"] is None or d["valid"][n_]) else None
+                         for n_, c in enumerate(itertools.product((0, 1, 2), repeat=d["index"]))]
     return o
 
 
